@@ -161,6 +161,15 @@ theorem facts (c : TxCfg) (hv : c.valid) : Facts c := by
     | some m =>
       rw [hm] at h2; simp only at h2 ⊢; omega
 
+/-- `valid` in quantified form (matches `Proofs.ValidTx` of Proofs/Pad.lean plus the byte range of the
+    padding value) — convenient for deriving it from the model's `Cfg.valid` -/
+theorem valid_iff (c : TxCfg) : c.valid ↔
+    Spec.validTxDl c.txDl ∧
+    (∀ m, c.minLen = some m → ((1 ≤ m ∧ m ≤ 8) ∨ Spec.validTxDl m) ∧ m ≤ c.txDl) ∧
+    (∀ b, c.padding = some b → b ≤ 255) ∧ c.pre.length ≤ 1 := by
+  unfold TxCfg.valid
+  cases c.minLen <;> cases c.padding <;> simp
+
 theorem txDl_legal (c : TxCfg) (hv : c.valid) : legal c.txDl := by
   rw [legal_iff]; have := (facts c hv).txDl; omega
 
